@@ -37,7 +37,7 @@ class Ctx:
     pass
 
 
-def build(prop, tier, seed, workdir):
+def build(prop, tier, seed, workdir, refine=()):
     """generate the Verus file for a property; returns (info, obligations, gen_path)"""
     from . import cells
     cfg = PROPS[prop]
@@ -47,11 +47,15 @@ def build(prop, tier, seed, workdir):
         t, o = lemmas.load(os.path.join(VERIF, 'lemmas', name + '.rs'), prop)
         texts.append(t)
         obligations.update(o)
+    for name in cfg.get('support_lemmas', []):
+        # lemma modules of other properties that this one's lemmas cite (their obligations belong to those properties)
+        t, o = lemmas.load(os.path.join(VERIF, 'lemmas', name + '.rs'), name.upper())
+        texts.append(t)
     # first pass without generated cells to learn keycodes / layouts
     pre = gen.generate(REPO, os.path.join(VERIF, 'contracts'))
     aux = {}
     for g in cfg.get('cellgens', []):
-        t, o, a = getattr(cells, g)(pre, prop, tier, VERIF)
+        t, o, a = getattr(cells, g)(pre, prop, tier, VERIF, refine)
         texts.append(t)
         obligations.update(o)
         aux.update(a or {})
@@ -181,6 +185,34 @@ def main(argv=None):
     R = relevant_obligations(prop, info, lemma_obs)
     res = verus.run(gen_path, info, seed=seed, multiple_errors=max(50, len(info.cell_lines) + 20))
     mine, tool, other = classify(prop, res.failures, R, info)
+    # refine failing coarse units cell by cell so that the failing cells are named
+    coarse_failed = sorted(set(R[f.oid]['unit'] for f in mine if f.oid in R and R[f.oid]['kind'] == 'coarse' and f.kind == 'semantic'))
+    refined = False
+    if coarse_failed and tier != 'thorough' and not tool:
+        try:
+            info, lemma_obs, gen_path = build(prop, tier, seed, workdir, refine=tuple(coarse_failed))
+        except (ExtractError, SpecError) as e:
+            print('UNDECIDED property=%s reason=extraction: %s' % (prop, e))
+            evidence['level'] = 'other'
+            return finish(2, 'undecided: extraction failed: %s' % e)
+        R = relevant_obligations(prop, info, lemma_obs)
+        res = verus.run(gen_path, info, seed=seed, multiple_errors=max(50, len(info.cell_lines) + 20))
+        mine, tool, other = classify(prop, res.failures, R, info)
+        refined = True
+    # a coarse lemma whose unit also has failing cells is subsumed by those cells
+    units_with_failing_cells = set(R[f.oid]['unit'] for f in mine if f.oid in R and R[f.oid]['kind'] == 'cell')
+    kept = []
+    for f in mine:
+        ob = R.get(f.oid)
+        if ob and ob['kind'] == 'coarse' and f.kind == 'semantic':
+            if ob['unit'] in units_with_failing_cells:
+                continue
+            if refined or tier == 'thorough':
+                # quantified form fails although every cell verifies: solver incompleteness, not a violation
+                f.kind = 'undecided'
+                f.message = 'quantified lemma not proved although all its cells verify: ' + f.message
+        kept.append(f)
+    mine = kept
 
     # --- thorough extras
     extra_cov = {}
